@@ -239,6 +239,9 @@ func ZZ_C11_BlockingGet() {
 	force := zzvf.Choose(2) == 1
 	zzvf.OnWait(2, func() {
 		calls++
+		if calls == 1 {
+			q.lock.Broadcast() // a wake-up without an element (natively too)
+		}
 		if calls == 2 { // first wake-up is spurious, the second follows a put
 			if force {
 				q.PutForce(v)
@@ -251,6 +254,37 @@ func ZZ_C11_BlockingGet() {
 	zzvf.Assert(zzvf.And(ok, x == v), "blockingget/woken-consumer-gets-the-element")
 	zzvf.Assert(q.Size() == 0, "blockingget/delivered-exactly-once")
 	zzvf.Reach("blockingget")
+}
+
+// the same for the double queue: the element arrives in the first or the second queue
+// (plain or forced put); the first wake-up is spurious
+func ZZ_C11_BlockingGetDouble() {
+	q := NewRequestDoubleQueue(zzvf.Choose(3), zzvf.Choose(3))
+	v := zzvf.Int64()
+	calls := 0
+	how := zzvf.Choose(4)
+	zzvf.OnWait(2, func() {
+		calls++
+		if calls == 1 {
+			q.lock.Broadcast() // a wake-up without an element (natively too)
+		}
+		if calls == 2 {
+			switch how {
+			case 0:
+				q.Put1(v)
+			case 1:
+				q.Put2(v)
+			case 2:
+				q.PutForce1(v)
+			case 3:
+				q.PutForce2(v)
+			}
+		}
+	})
+	x, ok := zzUnbox(q.Get())
+	zzvf.Assert(zzvf.And(ok, x == v), "blockingget-double/woken-consumer-gets-the-element")
+	zzvf.Assert(q.Size() == 0, "blockingget-double/delivered-exactly-once")
+	zzvf.Reach("blockingget-double")
 }
 
 func zzEvents() []string {
